@@ -11,6 +11,7 @@
 import DateutilVerif.Proofs.IsoRender
 import DateutilVerif.Proofs.IsoDatetime
 import DateutilVerif.Proofs.IsoGenEq
+import DateutilVerif.Proofs.IsoGenLoop
 namespace C07
 open Iso IsoSpec Cal
 
@@ -158,6 +159,61 @@ theorem parse_isodate_scan_render_gen (df : DateForm) (x : Fields) (t : Iso.Byte
             .int (fromOrdinal (dateOrdinal df x)).2.2], ((renderDate df x).length : Int)) := by
   rw [IsoGen.parseIsodate_eq, parseIsodate_render df x t hwf (dateOrdinal_pos df x hwf) hr ht hc]
   simp [Except.map, IsoGen.dateOut]
+
+/-- THE INVERSE LAW for the TRANSLATED `isoparse` (`Gen.isoparse`, re-translated from isoparser.py on every run):
+    every form, every well-formed field assignment, default or configured separator -/
+theorem isoparse_render_gen (f : IsoForm) (x : Fields) (cfg : Option Nat)
+    (hw : WFields f x) (hsep : f.time ≠ .none → isDigit f.sep = false)
+    (hcfg : cfg = none ∨ cfg = some f.sep) :
+    Gen.isoparse (cfg.map fun c => [c]) (render f x) = .ok (denote f x) := by
+  rw [IsoGen.isoparse_eq]; exact isoparse_render_core f x cfg hw hsep hcfg
+
+/-- the datetime-level inverse law for the translated `isoparse` -/
+theorem isoparse_inverts_datetime_gen (t : DT) (ht : t.Valid) (df : DateForm) (hc : df.complete = true)
+    (tf : TimeForm) (htf : tf ≠ .none) (frac : List Nat)
+    (hfrac : tf.hasFrac = true → frac ≠ [] ∧ ∀ d ∈ frac, d ≤ 9)
+    (o : OffForm) (xo : Fields) (how : offWF o xo = true) (sep : Nat) (hsep : isDigit sep = false)
+    (cfg : Option Nat) (hcfg : cfg = none ∨ cfg = some sep) :
+    Gen.isoparse (cfg.map fun c => [c]) (render ⟨df, tf, o, sep⟩ (dtFields df t frac xo)) =
+      .ok ⟨truncDT tf frac t, offDenote o xo⟩ := by
+  rw [IsoGen.isoparse_eq]
+  exact isoparse_inverts_datetime_core t ht df hc tf htf frac hfrac o xo how sep hsep cfg hcfg
+
+/-- the translated `_parse_isotime` (the `while` loop, fuel-bounded) inverts every time form × offset form: it
+    returns the raw components `[hh, mm, ss, µs, tz]` the rendering shows -/
+theorem parse_isotime_scan_render_gen (tf : TimeForm) (o : OffForm) (x : Fields) (htf : tf ≠ .none)
+    (hw : timeWF tf x = true) (ho : offWF o x = true) :
+    Gen.parseIsotime (renderTime tf x ++ renderOff o x) =
+      .ok (IsoGen.compsOf { h := (timeShown tf x).1, m := (timeShown tf x).2.1, s := (timeShown tf x).2.2.1,
+                            us := (timeShown tf x).2.2.2, tz := offDenote o x }) := by
+  rw [IsoGen.parseIsotime_eq, parseIsotime_render tf x _ _ htf hw (offTail_render o x ho)]; rfl
+
+/-- the translated body of `parse_isodate` inverts every date form (the value is the date's ordinal) -/
+theorem parse_isodate_render_gen (df : DateForm) (x : Fields) (hwf : dateWF true df x = true)
+    (hr : dateOrdinal df x ≤ maxOrdinal) :
+    Gen.parseIsodateEntry (renderDate df x) = .ok (dateOrdinal df x) := by
+  rw [IsoGen.parseIsodateEntry_eq, parse_isodate_render df x hwf hr]
+  simp only [Except.map]
+  rw [(toOrdinal_fromOrdinal _ (dateOrdinal_pos df x hwf)).1]
+
+/-- the translated body of `parse_isotime` inverts every time form × offset form (24:00 reads as 00:00) -/
+theorem parse_isotime_render_gen (tf : TimeForm) (o : OffForm) (x : Fields) (htf : tf ≠ .none)
+    (hw : timeWF tf x = true) (ho : offWF o x = true) :
+    Gen.parseIsotimeEntry (renderTime tf x ++ renderOff o x) =
+      .ok (IsoGen.compsOf
+        { h := if (timeShown tf x).1 = 24 then 0 else ((timeShown tf x).1 : Int),
+          m := (timeShown tf x).2.1, s := (timeShown tf x).2.2.1, us := (timeShown tf x).2.2.2,
+          tz := offDenote o x }) := by
+  rw [IsoGen.parseIsotimeEntry_eq, parse_isotime_render tf o x htf hw ho]; rfl
+
+/-- str, bytes and stream inputs are equivalent: for ASCII text every `@_takes_ascii` entry point computes the
+    same result whichever way the text arrives (model of `_takes_ascii`; the decorator itself is hand-modelled) -/
+theorem input_kinds_equivalent {α} (f : Iso.Bytes → Py.R α) (t : List Nat) (h : ∀ c ∈ t, c < 128) :
+    takesAscii f (.str t) = f t ∧ takesAscii f (.bytes t) = f t ∧
+    takesAscii f (.streamStr t) = f t ∧ takesAscii f (.streamBytes t) = f t := by
+  have : t.any (fun c => decide (c ≥ 128)) = false := by
+    rw [List.any_eq_false]; intro c hc; have := h c hc; simp; omega
+  simp [takesAscii, this]
 
 /-! non-vacuity: concrete forms with well-formed fields -/
 example : WFields ⟨.weekExtD, .hmsfExt false, .hhcmm, 84⟩
